@@ -101,7 +101,7 @@ var worldBases = []string{
 var worldQueries = []string{"", "", "?ref=v1", "?ref=feature%2Fx", ""}
 var worldLocs = []string{"", "mod", "mod/sub", "other"}
 var worldRegAddrs = []string{"example.com/ns/m%d/sys", "ns/m%d/aws", "terraform.example.com:8443/team/m%d/azurerm", "テラフォーム.example.com/ns/m%d/sys"}
-var WorldVersions = []string{"0.0.0", "0.9.0", "1.0.0", "1.0.1", "1.1.0", "1.2.0-beta.1", "1.2.0", "2.0.0-rc.1", "2.0.0", "10.0.0"}
+var WorldVersions = []string{"0.0.0", "0.9.0", "1.0.0", "1.0.1", "1.1.0", "1.2.0-beta.1", "1.2.0", "2.0.0-rc.1", "2.0.0", "10.0.0", "3.1.0+build.7"}
 var WorldAllowed = []string{"", "", ">= 1.0.0", ">= 1.0.0, < 2.0.0", "~> 1.0", "~> 1.0.0", "!= 1.2.0", "< 1.0.0", "> 10.0.0", "1.0.1", ">= 1.2.0-beta.1", ">= 0.0.0"}
 
 func pkgFiles(id int, r *fw.Rand) map[string]string {
